@@ -1223,6 +1223,8 @@ D_OPS = {
     "form-vs-builtin": (["pair"], "Potential-Form", "f(r,a)", ["as.%s(r,a)" % n for n in BUILTIN_EARLY] + ["as.zero(r)", "as.polynomial(r,a,b)"], "r + 99"),
     "form-vs-late-builtin": (["pair", "eam"], "Potential-Form", "f(r,a)", ["as.buck4(r,a)", "as.buck4(r)", "as.buck4(r,A,rho,C,r_detach,r_min,r_attach)"], "r + 99"),
     "section-twice": (["pair", "eam"], "Pair", None, ["Pair"], None),
+    "section-header-ws": (["pair", "eam"], "Pair", None, ["Pair ", " Pair", "Pair\t"], None),
+    "table-header-ws": (["pair", "eam"], "Table-Form:tf", None, ["Table-Form :tf", "Table-Form : tf", " Table-Form:tf", "Table-Form\t:tf"], None),
 }
 
 
@@ -1237,8 +1239,9 @@ def dup_render(fam, opname, spelling, position, orig=None):
                 at = i + 1 if position == "adjacent" else (0 if position == "before" else len(items))
                 items.insert(at, (spelling, val2))
     else:
-        if opname == "section-twice":
-            new = ("Pair", [("Fe-Fe", "as.polynomial 99 1")])
+        if opname in ("section-twice", "section-header-ws"):
+            # the second [Pair] section: one interaction of the first again, and one of its own
+            new = (spelling, [("Fe-Fe", "as.polynomial 99 1"), ("O-O", "as.polynomial 98 1")])
         else:
             new = (spelling, [("x", "0.0 1.0 2.0 3.0 4.0"), ("y", "0.0 2.0 8.0 18.0 32.0")])
         idx = [n for n, _ in secs].index(sec)
@@ -1265,7 +1268,7 @@ def main_c20(tier, seed):
                 ops = tlc.read_ndjson(os.path.join(res.outdir, "cases.ndjson"))
         finally:
             tlc.cleanup(res)
-        for cfg in ("Dups_code.cfg", "Dups_late.cfg", "Dups_addraw.cfg", "Dups_addmerged.cfg"):
+        for cfg in ("Dups_code.cfg", "Dups_late.cfg", "Dups_addraw.cfg", "Dups_addmerged.cfg", "Dups_headerblanks.cfg"):
             r2 = tlc.run("Dups", cfg, timeout=600)
             run.notes["unrepaired_model_violates_" + cfg[:-4]] = r2.violated
             if r2.violated != "NoDuplicateSurvives":
